@@ -61,6 +61,17 @@ example : (rawOut none 2 [14, 32, 0, 0, 9, 0, 0, 0, 46, 70, 73, 84, 0, 0,  64, 0
     lengthsOK [⟨rawFlagFileHeader, [14, 32, 0, 0, 9, 0, 0, 0, 46, 70, 73, 84, 0, 0]⟩, ⟨rawFlagMesgDef, [64, 0, 0, 0, 0, 1, 0, 1]⟩] = false := by
   decide +kernel
 
+/-- READER FAILURES. `RawDecoder.Decode` over ANY reader: if an `io.ReadFull` of the decoder meets a failure of the reader
+(any error of the reader other than the end-of-stream errors), `Decode` returns exactly that error — at whatever
+point (header, record header, definition, data, CRC), whatever the callback does. (C08's second sentence for the raw
+decoder, which reads from the reader without the read buffer; stated here because it is about `FitModel/Raw.lean`.) -/
+theorem C16_reader_error (failAt : Option Nat) (fuel : Nat) (s : Sched) (e : RErr)
+    (h : firstFullErr (decode failAt fuel {}) s = some e) :
+    (runFull (decode failAt fuel {}) s).status = some (.io e) :=
+  rkeeps_run _ (rkeeps_decode failAt fuel {}) s e h
+
+example : firstFullErr (decode none 3 {}) [⟨[14, 32, 0], none⟩, ⟨[0], some (.custom 5)⟩] = some (.custom 5) := by decide +kernel
+
 /-! ## agreement with the full decoder -/
 
 open Fit.Agree in
